@@ -10,7 +10,7 @@ import sys
 import time
 import traceback
 
-from vlib import (MachineryError, Scratch, SPEC, VERIF, NCPU, run_tlc, tlc_ok, validate_events, load_known_findings,
+from vlib import (MachineryError, Scratch, SPEC, VERIF, NCPU, run_tlc, tlc_ok, validate_events, load_known_findings, peak_rss_mb, compact,
                   write_evidence, write_replay)
 
 _EXEC = None
@@ -18,7 +18,7 @@ _EXEC = None
 
 def _run_one(case):
     try:
-        return _EXEC(case)
+        return compact(_EXEC(case))
     except Exception as ex:  # the executor itself must never raise: it logs outcomes
         return {"fn": "machinery", "error": "%s: %s" % (type(ex).__name__, ex), "tb": traceback.format_exc(), "case": case}
 
@@ -147,7 +147,10 @@ class Check:
         return True
 
     def count_nontrivial(self, key):
-        self.nontrivial.add(key if isinstance(key, (str, int, tuple)) else json.dumps(key, sort_keys=True))
+        if not isinstance(key, (str, int, tuple)):
+            key = json.dumps(key, sort_keys=True)
+        # a digest, not the key: thorough runs count hundreds of thousands of multi-kilobyte keys
+        self.nontrivial.add(hashlib.sha1(repr(key).encode()).digest()[:12])
 
     # ---- (C) --------------------------------------------------------------------------------
     def finish(self, trace_module="Trace_Fn", samples=None, own_prefixes=None, workers=NCPU, exhaustive=None,
@@ -216,7 +219,7 @@ class Check:
                "rule": self.rule, "model_runs": self.model_runs, "negative_controls_rejected": len(self.negs), "negative_controls_skipped_no_source_event": getattr(self, "neg_skipped", 0),
                "drift_events": drift, "drift_clauses": drift_clauses, "events_outside_judge_arithmetic_range": skipped, "events_failing_only_other_properties_clauses": foreign,
                "known_finding_cases": {k: v[1] for k, v in known.items()},
-               "trace_validation_wall_s": round(self.tlc_trace_wall, 1)}
+               "trace_validation_wall_s": round(self.tlc_trace_wall, 1), "peak_memory": peak_rss_mb()}
         if exhaustive is not None:
             cov["exhaustive"] = exhaustive
         cov.update(self.coverage_extra)
